@@ -27,6 +27,11 @@ Results (Props/C01TabT.lean):
                       on those 8 (closed under reads: `sub124_closed`), every field, every `D`, every input dictionary,
                       every admissible policy, every history.
 This file: the table, H1, the list of guarded bodies, the denotation.
+
+EXTENSION ROUND 6 (Props/C01TabG, C01TabH, C01TabX, C01TabR.lean): `gdet`, `Momentumup3`, `s_Ricci_down3`, `Ttrace` are
+discharged against `den` under hypotheses about the INPUTS only (`InputsOK`), `st_Riemann_down4` with no hypothesis
+(its return sites are now generated); sub-tables of 125 / 139 / 147 keys; `HardCoh` shrinks to `HardCoh3` = the three
+class (c) bodies `st_Ricci_down4`, `st_Ricci_down3`, `st_Weyl_down4` (`tab_transparent_inputs3`).
 -/
 import AurelVerif.Props.C01M
 import AurelVerif.Lemmas.CacheDen
